@@ -38,7 +38,7 @@ def main():
             viol = [l for l in r.stdout.splitlines() if l.startswith('VIOLATION')]
             summ = [l for l in r.stdout.splitlines() if l.startswith(prop)]
             exp = m.get('expect', 'violation')
-            good = (exp == 'violation' and r.returncode == 1 and viol) or (exp == 'clean' and r.returncode == 0)
+            good = (exp == 'violation' and r.returncode == 1 and viol) or (exp == 'clean' and r.returncode == 0) or (exp == 'undecided-ok' and r.returncode in (0, 2) and not viol)
             ok &= bool(good)
             print(f"[{m['name']}] expect={exp} exit={r.returncode} {'OK' if good else 'MISSED/WRONG'}  {summ[-1] if summ else ''}")
             for v in viol[:3]:
